@@ -5268,6 +5268,9 @@ class PyCdlib:
                     if id(linkrec) != id(entry):
                         new_list.append((linkrec, is_pvd))
                 entry.inode.linked_records = new_list
+                # The file is no longer a boot file, so it must no longer be
+                # patched with a boot info table when it is written or read.
+                entry.inode.boot_info_table = None
 
         num_bytes_to_remove += len(self.eltorito_boot_catalog.record())
 
